@@ -93,6 +93,26 @@ def gen_family(rng, n_classes=None, kinds=None, n_variants=None, rich=False):
         files['main_' + sib['file']] = copy.deepcopy(files['main_' + v['file']])
         files['main_' + sib['file']]['uses'] = [u.replace(v['file'], sib['file']) for u in files['main_' + v['file']]['uses']]
         variants.append(sib)
+        if rng.random() < 0.6:
+            # ... and a PAIR of siblings in which the two mounts exchange the value of one parameter: the join task of the one gets
+            # (a, b) where the join task of the other gets (b, a) — same set of upstream computations, different wiring
+            k = rng.choice(pkeys)
+            a_, b_ = gen.gen_value(rng, 1, 1, gen.SAFE, gen.SAFE), gen.gen_value(rng, 1, 1, gen.SAFE, gen.SAFE)
+            if repr(a_) == repr(b_):
+                b_ = [a_]
+            for x, y in ((a_, b_), (b_, a_)):
+                sw = {'file': f'v{len(variants)}.json', 'data': copy.deepcopy(v['data']), 'ns': v['ns']}
+                c2 = copy.deepcopy(v.get('context') or {})
+                last2 = c2[-1] if isinstance(c2, list) else c2
+                fn2 = last2.setdefault('for_namespaces', {})
+                fn2.setdefault(nss[0], {})[k] = copy.deepcopy(x)
+                fn2.setdefault(nss[1], {})[k] = copy.deepcopy(y)
+                sw['context'] = c2
+                sw['swap_join'] = gen.slug_of(classes[jid], modname)
+                files[sw['file']] = sw['data']
+                files['main_' + sw['file']] = copy.deepcopy(files['main_' + v['file']])
+                files['main_' + sw['file']]['uses'] = [u.replace(v['file'], sw['file']) for u in files['main_' + v['file']]['uses']]
+                variants.append(sw)
     spec = {'module': modname, 'classes': classes, 'files': files, 'main': 'main_v0.json'}
     return spec, variants
 
@@ -132,6 +152,13 @@ def gen_ops(rng, spec, variants, length, allow):
             ops.append(op)
         else:
             ops.append({'op': 'inspect', 'chain': rng.choice(live), 'task': rng.choice(slugs), 'what': rng.choice(INSPECTIONS), 'pick': rng.randrange(4)})
+    # a family with a swapped pair of configurations: both join tasks are requested, one after the other, on the one data directory
+    pair = [i for i, v in enumerate(variants) if v.get('swap_join')]
+    if len(pair) >= 2 and rng.random() < 0.8:
+        for i in pair[:2]:
+            c = len(chains)
+            ops.append({'op': 'build', 'variant': i}); chains.append(c)
+            ops.append({'op': 'value', 'chain': c, 'task': variants[i]['swap_join'], 'failing': [], 'pick': 0})
     return ops
 
 
